@@ -129,15 +129,16 @@ Definition exists_any_keys_m (bs : list N) (ks : list (list N)) : res bool :=
 Definition traverse_check_string_m (bs : list N) (needle : list N) : res bool :=
   lift_bool (fun v => traverse_check_string_t v needle) (doc_of bs).
 
-(* ---- rendering (binary branch; a text input is returned as it is, empty -> "null") ---- *)
+(* ---- rendering (binary branch; an input that is not JSONB goes through String::from_utf8_lossy -- a text that parses is
+   valid UTF-8 and is returned as it is --, empty -> "null") ---- *)
 Definition to_string_m (bs : list N) : res (list N) :=
   if is_jsonb bs then
     match parse_jsonb bs with Ok v => Ok (to_string_t float_placeholder v) | Err _ => Ok [110; 117; 108; 108] | Panic => Panic end
-  else match bs with [] => Ok [110; 117; 108; 108] | _ => Ok bs end.
+  else match bs with [] => Ok [110; 117; 108; 108] | _ => Ok (lossy bs) end.
 Definition to_pretty_string_m (bs : list N) : res (list N) :=
   if is_jsonb bs then
     match parse_jsonb bs with Ok v => Ok (to_pretty_string_t float_placeholder v) | Err _ => Ok [110; 117; 108; 108] | Panic => Panic end
-  else match bs with [] => Ok [110; 117; 108; 108] | _ => Ok bs end.
+  else match bs with [] => Ok [110; 117; 108; 108] | _ => Ok (lossy bs) end.
 
 (* ---- compare ---- *)
 Definition compare_api (l r : list N) : res comparison :=
